@@ -418,6 +418,9 @@ def r17_10(ctx):
 
 
 def run(ctx):
+    ctx.rule("R17.15", "= R16.10: which attributes are namespace declarations is decided on prefix and local name alone, identically (complementarily) in the declaring and the binding pass - a declaration the tree builder rejects must not survive as an attribute, which the serializer would write out and the re-parse reject again")
+    from . import nsdecl as _nsd
+    ctx.guard("R17.15", "declaration-predicates", lambda: _nsd.declaration_predicates(ctx, "R17.15"))
     ctx.rule("R17.14", "after a PI target only white space is consumed; the data state sees the first other character itself")
     ctx.guard("R17.14", "pi-target-after", lambda: r17_14(ctx))
     ctx.rule("R17.13", "rcdom Serialize writes node.children for every element (R07.13): an XML element that happens to be called template keeps its children")
